@@ -219,3 +219,51 @@ package datalog
 //@ ensures sound: forall k int :: 0 <= k && k < len(result) ==> memberOf(result[k], t) || memberOf(result[k], s)
 //@ ensures has_left: forall j int :: 0 <= j && j < len(s) ==> result[j] == s[j]
 // not claimed (solver budget): has_right, every t[j] occurs in result
+
+// ---------------------------------------------------------------------------
+// operators over sets, equality, regular expressions
+
+//@ func (Equal) Eval(left Term, right Term, _ *SymbolTable) (res Term, err error)
+//@ serves C06 C10
+//@ requires termWF(left) && termWF(right)
+//@ modifies nothing
+//@ ensures scalars: sameKind(left, right) && !(left is Set) && !(left is Variable) ==> err == nil && res == Bool(scalarEq(left, right))
+//@ ensures sets_equal: left is Set && right is Set && len(left.(Set)) == len(right.(Set)) && subsetOf(left.(Set), right.(Set)) ==> err == nil && res == Bool(true)
+//@ ensures sets_differ: left is Set && right is Set && !(len(left.(Set)) == len(right.(Set)) && subsetOf(left.(Set), right.(Set))) ==> err == nil && res == Bool(false)
+//@ ensures illtyped: !sameKind(left, right) || left is Variable ==> err != nil && res == nil
+
+//@ func (Contains) Eval(left Term, right Term, symbols *SymbolTable) (res Term, err error)
+//@ serves C06 C10
+//@ requires termWF(left) && termWF(right) && symbols != nil
+//@ modifies nothing
+//@ loop 0 invariant forall a int :: 0 <= a && a < #i ==> memberOf(rhsset[a], set)
+//@ loop 1 invariant rhsinlhs == (exists b int :: 0 <= b && b < #i && scalarEq(set[b], rhselt))
+//@ loop 2 invariant forall b int :: 0 <= b && b < #i ==> !scalarEq(set[b], right)
+//@ ensures strings: left is String && right is String && symValid(symbols, left.(String)) && symValid(symbols, right.(String)) ==> err == nil && res == Bool(strContains(symStr(symbols, left.(String)), symStr(symbols, right.(String))))
+//@ ensures string_illtyped: left is String && !(right is String) ==> err != nil && res == nil
+//@ ensures includes: left is Set && right is Set && subsetOf(right.(Set), left.(Set)) ==> err == nil && res == Bool(true)
+//@ ensures not_includes: left is Set && right is Set && !subsetOf(right.(Set), left.(Set)) ==> err == nil && res == Bool(false)
+//@ ensures member: left is Set && !(right is Set) && !(right is Variable) ==> err == nil && res == Bool(memberOf(right, left.(Set)))
+//@ ensures illtyped: (!(left is String) && !(left is Set)) || (!(left is String) && right is Variable) ==> err != nil && res == nil
+
+//@ func (Intersection) Eval(left Term, right Term, _ *SymbolTable) (res Term, err error)
+//@ serves C06 C10
+//@ requires termWF(left) && termWF(right)
+//@ modifies nothing
+//@ ensures sets: left is Set && right is Set ==> err == nil && res is Set && setWF(res.(Set)) && (forall k int :: 0 <= k && k < len(res.(Set)) ==> memberOf(res.(Set)[k], left.(Set)) && memberOf(res.(Set)[k], right.(Set)))
+//@ ensures illtyped: !(left is Set && right is Set) ==> err != nil && res == nil
+
+//@ func (Union) Eval(left Term, right Term, _ *SymbolTable) (res Term, err error)
+//@ serves C06 C10
+//@ requires termWF(left) && termWF(right)
+//@ modifies nothing
+//@ ensures sets: left is Set && right is Set ==> err == nil && res is Set && setWF(res.(Set)) && (forall k int :: 0 <= k && k < len(res.(Set)) ==> memberOf(res.(Set)[k], left.(Set)) || memberOf(res.(Set)[k], right.(Set))) && (forall j int :: 0 <= j && j < len(left.(Set)) ==> res.(Set)[j] == left.(Set)[j])
+//@ ensures illtyped: !(left is Set && right is Set) ==> err != nil && res == nil
+
+//@ func (Regex) Eval(left Term, right Term, symbols *SymbolTable) (res Term, err error)
+//@ serves C06 C10
+//@ requires symbols != nil
+//@ modifies nothing
+//@ ensures matches: left is String && right is String && symValid(symbols, left.(String)) && symValid(symbols, right.(String)) && reCompiles(symStr(symbols, right.(String))) ==> err == nil && res == Bool(reMatches(symStr(symbols, right.(String)), bytes_of_str(symStr(symbols, left.(String)))))
+//@ ensures bad_regex: left is String && right is String && symValid(symbols, right.(String)) && !reCompiles(symStr(symbols, right.(String))) ==> err != nil && res == nil
+//@ ensures illtyped: !(left is String && right is String) ==> err != nil && res == nil
